@@ -595,6 +595,7 @@ class SparselyBin(Factory, Container):
             and self.quantity == other.quantity
             and numeq(self.entries, other.entries)
             and self.contentType == other.contentType
+            and self.value == other.value
             and self.bins == other.bins
             and self.nanflow == other.nanflow
             and numeq(self.origin, other.origin)
